@@ -20,7 +20,8 @@ def enc_watcher(w):
     t = [enc(w["name"]), str(w.get("np", 1)), b(w.get("singleton", False)), b(w.get("respawn", True)),
          str(w.get("warmup_ms", 0)), str(w.get("graceful_ms", 300)), str(w.get("stop_signal", 15)),
          b(w.get("stop_children", False)), str(w.get("priority", 0)), b(w.get("autostart", True)),
-         str(w.get("max_retry", 5)), b(w.get("send_hup", False)), str(w.get("max_age", 0)), str(len(hooks))]
+         str(w.get("max_retry", 5)), b(w.get("send_hup", False)), str(w.get("max_age", 0)), b(w.get("on_demand", False)),
+         str(len(hooks))]
     for name, spec in hooks.items():
         outs = spec.get("out", ["true"])
         t += [name, b(spec.get("ignore")), str(len(outs))] + list(outs)
@@ -63,6 +64,8 @@ def enc_op(op):
         return [k, str(op[1]), str(op[2])]
     if k == "fault":
         return ["fault", str(op[1]), str(op[2]), str(op[3])]
+    if k == "sockev":
+        return ["sockev", b(op[1])]
     raise ValueError(op)
 
 
